@@ -325,6 +325,110 @@ def prop_c17dh(d, da, db, ossl):
     return "ok"
 
 
+@op("prop.c17dhhist")
+def prop_c17dhhist(d, seed, steps):
+    """a history of key loads (every loader of the ECDH class, plain attribute assignment, a fresh key) on two long-lived
+    ECDH objects: after every step each object's secret is x(private * peer) of the independent arithmetic for the keys it
+    holds *now*"""
+    import random
+    rng = random.Random(int(seed))
+    c = refcurve(d)
+    cv = domain(d)[5]
+    n = c["n"]
+    ln = (c["p"].bit_length() + 7) // 8
+    named = d in OSSL_NAMES or cv.oid is not None
+    objs = [ecdh.ECDH(cv), ecdh.ECDH()]
+    held = [[None, None], [None, None]]            # (private scalar, peer scalar) per object
+    log = []
+
+    def scalar():
+        return rng.choice([rng.randrange(1, n), 1, n - 1, rng.randrange(1, min(n, 1 << 16))])
+
+    for _ in range(int(steps)):
+        i = rng.randrange(2)
+        e = objs[i]
+        kind = rng.choice(["priv", "priv", "pub", "pub", "pub", "gen", "secret"])
+        try:
+            if kind == "priv":
+                k = scalar()
+                sk = keys.SigningKey.from_secret_exponent(k, cv)
+                how = rng.choice(["obj", "bytes", "der", "pem"] if named else ["obj", "bytes"])
+                if how == "obj":
+                    e.load_private_key(sk)
+                elif how == "bytes":
+                    if e.curve is None:
+                        e.set_curve(cv)
+                    e.load_private_key_bytes(sk.to_string())
+                elif how == "der":
+                    e.load_private_key_der(sk.to_der())
+                else:
+                    e.load_private_key_pem(sk.to_pem())
+                held[i][0] = k
+                log.append(f"obj{i}.load_private_key[{how}]")
+            elif kind == "gen":
+                if e.curve is None:
+                    e.set_curve(cv)
+                e.generate_private_key()
+                held[i][0] = int(e.private_key.privkey.secret_multiplier)
+                log.append(f"obj{i}.generate_private_key")
+            elif kind == "pub":
+                k = scalar()
+                vk = keys.SigningKey.from_secret_exponent(k, cv).verifying_key
+                how = rng.choice(["obj", "bytes", "bytes-compressed", "assign", "der", "pem"] if named else ["obj", "bytes", "assign"])
+                if how == "obj":
+                    e.load_received_public_key(vk)
+                elif how == "bytes":
+                    if e.curve is None:
+                        e.set_curve(cv)
+                    e.load_received_public_key_bytes(vk.to_string(rng.choice(["raw", "uncompressed", "hybrid"])))
+                elif how == "bytes-compressed":
+                    if e.curve is None:
+                        e.set_curve(cv)
+                    e.load_received_public_key_bytes(vk.to_string("compressed"))
+                elif how == "assign":
+                    if e.curve is None:
+                        e.set_curve(cv)
+                    e.public_key = vk
+                elif how == "der":
+                    e.load_received_public_key_der(vk.to_der())
+                else:
+                    e.load_received_public_key_pem(vk.to_pem())
+                held[i][1] = k
+                log.append(f"obj{i}.load_received_public_key[{how}]")
+            else:
+                log.append(f"obj{i}.secret")
+        except Exception as ex:
+            return f"FAIL {' '.join(log)} then {kind} on obj{i}: {type(ex).__name__} at {where_(ex)}"
+        for j, o in enumerate(objs):
+            a, b = held[j]
+            if a is None or b is None:
+                try:
+                    o.generate_sharedsecret_bytes()
+                except ecdh.NoKeyError:
+                    continue
+                except Exception as ex:
+                    return f"FAIL {' '.join(log)}: obj{j} lacks a key and raises {type(ex).__name__} instead of NoKeyError"
+                return f"FAIL {' '.join(log)}: obj{j} lacks a key and still returns a secret"
+            want = refec.mul(c, a * b % n, refec.G(c))
+            try:
+                got_b = o.generate_sharedsecret_bytes()
+                got_i = o.generate_sharedsecret()
+            except Exception as ex:
+                return f"FAIL {' '.join(log)}: obj{j} raises {type(ex).__name__} at {where_(ex)}"
+            if want is None:
+                return f"FAIL {' '.join(log)}: obj{j} returns a secret for the point at infinity"
+            if int(got_i) != want[0] or got_b != want[0].to_bytes(ln, "big"):
+                return (f"FAIL {' '.join(log)}: obj{j} holds private {a} and peer {b}*G and returns {int(got_i)} "
+                        f"instead of x({a}*{b}*G) = {want[0]}")
+    return "ok"
+
+
+def where_(ex):
+    import traceback
+    tb = traceback.extract_tb(ex.__traceback__)
+    return f"{os.path.basename(tb[-1].filename)}:{tb[-1].lineno}" if tb else "?"
+
+
 @op("prop.c17invalid")
 def prop_c17invalid(d, x, y, why):
     """invalid points are rejected when loaded as public key and when used for key agreement"""
